@@ -41,7 +41,7 @@ GenInit == Init /\ hist = <<>>
 GenNext ==
     \/ \E m \in Honest :
          /\ Valid(m) /\ PayloadOk(m) /\ Request(m)
-         /\ <<reg, srv, iss, pub>>' # <<reg, srv, iss, pub>>
+         /\ <<reg, srv, iss, pub, susp>>' # <<reg, srv, iss, pub, susp>>
          /\ hist' = Append(hist, [a |-> "Req"] @@ m)
     \/ \E s \in CaServers : \E c \in DOMAIN reg[s] :
          /\ ChildId(s, c)
@@ -54,8 +54,13 @@ GenNext ==
          /\ PubReReg(q)
          /\ hist' = Append(hist, [a |-> "PubReReg", c |-> q,
                                   key |-> NextKey["R"][q]])
+    \/ \E x \in Suspendable :
+         /\ Suspend(x[1], x[2])
+         /\ hist' = Append(hist, [a |-> "Suspend", srv |-> x[1],
+                                  c |-> x[2]])
 
-View == <<reg, srv, iss, pub>>
+View == <<reg, srv, iss, pub, susp, held>>
+GenSuspendable == {<<"P", "c1">>}
 
 DepthBound == Len(hist) < Depth
 
